@@ -3,7 +3,7 @@
    Labels L with Python equality leq (reflexive, symmetric) and the int view as_pos used by the
    loc_is_iloc fast path; cells V.  S_* = specification, M_* = implementation model (SF/GrowOnly*.v). *)
 Require Import SF.Prelude SF.Dtype SF.GrowOnly SF.GrowOnlyHier SF.GrowOnlyShare Gen.Gen_c09 SF.GrowOnlyWorld
-  Proofs.GrowOnlyIndex Proofs.GrowOnlyBlocks Proofs.GrowOnlyFrame Proofs.GrowOnlyWorld Proofs.GrowOnlyExamples.
+  Proofs.GrowOnlyIndex Proofs.GrowOnlyBlocks Proofs.GrowOnlyFrame Proofs.GrowOnlyWorld Proofs.GrowOnlyHier Proofs.GrowOnlyExamples.
 
 (* ---------------------------------------------------------------- IndexGO *)
 (* specification, every history: the labels afterwards are the labels before followed by exactly the
@@ -136,6 +136,28 @@ Proof.
          (conj (proj1 ex_frame_guard) (proj1 (proj2 ex_frame_guard)))))).
 Qed.
 Print Assumptions C09_guards_satisfiable.
+
+(* ---------------------------------------------------------------- IndexHierarchyGO *)
+(* IndexLevelGO.append on the tree, every depth and shape: inside the guard (the key's outer labels, as far
+   as they are found, are the LAST labels on the last edge) exactly the given label is added at the end *)
+Theorem C09_hier_append : forall (L : Type) (leq : L -> L -> bool),
+  (forall a b, leq a b = true -> a = b) ->
+  forall t key t', lvl_wf L t -> on_last_edge L leq t key = true -> M_lappend L leq t key = Ok t' ->
+  flatten L t' = flatten L t ++ [key] /\ lvl_wf L t'.
+Proof. exact hier_append_correct. Qed.
+Print Assumptions C09_hier_append.
+
+Theorem C09_hier_append_rejected : forall (L : Type) (leq : L -> L -> bool) (h : hgo L) key e,
+  snd (M_happend L leq h key) = Err e -> fst (M_happend L leq h key) = h.
+Proof. exact hier_append_rejected. Qed.
+Print Assumptions C09_hier_append_rejected.
+
+Theorem C09_hier_guard_satisfiable :
+  lvl_wf Z ex_tree /\ on_last_edge Z Z.eqb ex_tree [20; 2] = true /\
+  M_lappend Z Z.eqb ex_tree [20; 2] = Ok (Node [10; 20] [Leaf [1]; Leaf [1; 2]]) /\
+  on_last_edge Z Z.eqb ex_tree [30; 1] = true /\ on_last_edge Z Z.eqb ex_tree [10; 2] = false.
+Proof. exact ex_tree_guard. Qed.
+Print Assumptions C09_hier_guard_satisfiable.
 
 (* ---------------------------------------------------------------- never shared *)
 (* the decision tables REGENERATED from the source: a grow-only index is never handed on as the same
